@@ -40,23 +40,17 @@ theorem walkList_once : ∀ ts : TS, nonNilEnters (walkList ts) = nodesList ts
 end
 
 mutual
-/-- The visitor is handed a nil node exactly once per typed-nil pointer field: the deviation region
-    `walk_typed_nil` (`tnilCount t > 0`) is exact. -/
-theorem walk_nil_count : ∀ t : T, nilEnters (walk t) = tnilCount t
+/-- The visitor is NEVER handed a nil node — for every tree shape, typed-nil pointer fields included. -/
+theorem walk_never_nil : ∀ t : T, nilEnters (walk t) = 0
   | .absent => rfl
   | .tnil => rfl
   | .node k a b l kids => by
-    simp only [walk, tnilCount, nilEnters, nilEnters_append, walkList_nil_count kids]
-    simp [nilEnters]
-theorem walkList_nil_count : ∀ ts : TS, nilEnters (walkList ts) = tnilCountList ts
+    simp only [walk, nilEnters, nilEnters_append, walkList_never_nil kids]
+theorem walkList_never_nil : ∀ ts : TS, nilEnters (walkList ts) = 0
   | .nil => rfl
   | .cons t ts => by
-    simp only [walkList, tnilCountList, nilEnters_append, walk_nil_count t, walkList_nil_count ts]
+    simp only [walkList, nilEnters_append, walk_never_nil t, walkList_never_nil ts]
 end
-
-/-- Outside the deviation region the walker never hands a nil node to the visitor. -/
-theorem walk_never_nil (t : T) (h : tnilCount t = 0) : nilEnters (walk t) = 0 := by
-  rw [walk_nil_count, h]
 
 mutual
 /-- Enter/Exit events are properly bracketed (continuation form: walking `t` leaves the stack as it found it). -/
@@ -80,17 +74,10 @@ theorem walk_balanced_top (t : T) : balanced (walk t) [] = true := by
   have := walk_balanced t [] []
   simpa [balanced] using this
 
-/-- Kernel-checked witnesses of the deviation regions (the real trees of `break;`, `for(;;);`, `switch(x){case 1:}`, ``). -/
-def wBreak : T := .node .BranchStatement 1 0 5 (.cons .tnil .nil)
-example : nilEnters (walk wBreak) ≠ 0 := by decide
-def wEmptySeq : T := .node .SequenceExpression 0 0 0 .nil
-example : idx0 wEmptySeq = none := by decide
-def wEmptyCase : T := .node .CaseStatement 11 0 0 (.cons (.node .NumberLiteral 16 0 1 .nil) .nil)
-example : idx1 wEmptyCase = none := by decide
-def wEmptyProg : T := .node .Program 0 0 0 .nil
-example : idx0 wEmptyProg = none ∧ idx1 wEmptyProg = none := by decide
-/-- non-vacuity: a tree without typed nils whose walk is nil-free and complete -/
-example : tnilCount (.node .ExpressionStatement 0 0 0 (.cons (.node .Identifier 1 0 1 .nil) .nil)) = 0 := by decide
+/-- the former deviation witnesses (the real trees of `break;`, `switch(x){case 1:}`, the empty program) are well-behaved -/
+example : nilEnters (walk (.node .BranchStatement 1 0 5 (.cons .tnil .nil))) = 0 := by decide
+example : idx1 (.node .CaseStatement 11 0 0 (.cons (.node .NumberLiteral 16 0 1 .nil) .nil)) = some 17 := by decide
+example : idx0 (.node .Program 1 0 0 .nil) = some 1 ∧ idx1 (.node .Program 1 0 0 .nil) = some 1 := by decide
 
 /-! ### spans (ast/node.go Idx0/Idx1) -/
 
